@@ -570,4 +570,10 @@ def radii(ctx):
     return res
 
 
-RULES = [list_space, record_fresh, operand_attr, parabasal, distortion, radii]
+def no_stale(ctx):
+    from .common import stale_cache
+    return stale_cache(ctx, 'NO-STALE-STATE', ['SpotDiagram', 'EncircledEnergy', 'RayFan', 'Distortion', 'GridDistortion', 'FieldCurvature', 'PupilAberration', 'RmsSpotSizeVsField', 'RmsWavefrontErrorVsField'],
+                       'the analysis contains data of an earlier evaluation', min_methods=5)
+
+
+RULES = [no_stale, list_space, record_fresh, operand_attr, parabasal, distortion, radii]
